@@ -510,7 +510,7 @@ def run_bounded(rep: Report, tier: str) -> None:
         items.reverse()  # large-network scopes first, the many cheap ones fill the tail (load balance);
         # in thorough the complete small scopes stay first so that a time limit can only cut the big ones
     viols = []
-    nsamples = 0
+    all_samples = []
     for status, r in pmap(_work, items, chunk=4):
         if status == "crash":
             rep.crash("C03 worker: " + r[:1500])
@@ -529,10 +529,11 @@ def run_bounded(rep: Report, tier: str) -> None:
         for nm, c in r["fires"].items():
             rep.fired(nm, c)
         viols.extend(r["viols"])
-        for s in r["samples"]:
-            if nsamples < 6:
-                nsamples += 1
-                rep.sample(s)
+        all_samples.extend(r["samples"])
+    # samples: deterministic choice (results arrive in scheduling order)
+    all_samples.sort(key=lambda c: (-len(c["inputs"]), json.dumps(c, sort_keys=True)))
+    for smp in all_samples[:: max(1, len(all_samples) // 6)][:6]:
+        rep.sample(smp)
     for name, m in meta.items():
         rep.scope(
             name, m["cases"], m["exh"] and m["skipped"] == 0,
